@@ -2,6 +2,7 @@
 C12 — Default values are the SSZ zero values.
 -/
 import Rmk.Proofs.DefaultNode
+import Rmk.Proofs.Leftovers
 namespace Rmk.C12
 open Rmk
 
@@ -27,6 +28,18 @@ theorem default_eq_explicit (H : Hash) (t : Ty) (hwf : t.wf = true) :
 theorem default_content (H : Hash) (t : Ty) (hwf : t.wf = true) (n : Node)
     (h : Impl.defaultNode H t = some n) : Impl.readVal H t n = some (Spec.zeroVal t) :=
   DefaultNode.default_read H t hwf n h
+
+/-- omitted container fields take their defaults: a container built with some fields given and the
+    others omitted (their `default_node()` is used) represents the value in which the omitted fields
+    are the zero values, has its spec root, and the same root as the fully explicit construction -/
+theorem omitted_fields (H : Hash) (fs : List Ty) (ovs : List (Option Val))
+    (hwf : (Ty.container fs).wf = true) (hwt : Leftovers.WTpartial fs ovs) :
+    ∃ n m, Leftovers.containerPartial H fs ovs = some n ∧
+      Impl.construct H (.container fs) (.seq (Leftovers.fillDefaults fs ovs)) = some m ∧
+      Impl.Repr H (.container fs) (.seq (Leftovers.fillDefaults fs ovs)) n ∧
+      n.root H = m.root H ∧
+      n.root H = Spec.htr H (.container fs) (.seq (Leftovers.fillDefaults fs ovs)) :=
+  Leftovers.containerPartial_spec H fs ovs hwf hwt
 
 /-! Non-vacuity: a vector whose chunk count (3) is not a power of two, nested -/
 private def H0 : Hash := fun a b => a ++ b
